@@ -24,6 +24,11 @@ claimed.update({
    text="2-3 actors issuing register / unregister / lookup / attach / stop over two paths in many spellings with schedule points inside Regist and Unregist; recorded history checked for linearizability with porcupine against a sequential registry model, quiescent Count/Infos/lookup observations, and an end-of-run oracle after 16 simulated minutes for retirement and idle-close (simsched jobs on the fake clock).",
    note="Trusted: as C01, porcupine v1.3.0, the sequential model in scen/c05.go. Count/Infos are only observed at quiescent points. DELETE /api/v1/streams is exercised at service level (see DESIGN.md)."),
 })
+claimed.update({
+ "C18": dict(level="fault_enumeration", ref="§5 C18",
+   text="Tape-generated histories of user/route create/update/delete/flush on the real auth and route managers with their JSON providers on a simulated disk, checked against a model after every operation and after flush+restart; then exhaustively, for every flush of the history: process death before every file-system operation, torn writes at four offsets, ENOSPC/EIO at every operation followed by an immediate crash or by a retry. Oracle: a restarted server loads the complete previous or the complete new table, never fails to load, never falls back to admin/admin.",
+   note="Trusted: simfs (in-memory stand-in for os/ioutil, import-substituted), its crash model (process death, completed calls persist; no power-loss reordering), encoding/json. Exhaustive over crash points per flush, seeded over histories."),
+})
 pending = {
 }
 not_applicable = {
